@@ -464,6 +464,19 @@ static void popcounts(bool& failed, std::string& sig, std::string& msg, std::str
     }
     for (int qd = 0; qd < 4; qd++) { uint64_t w = p < 65536 ? ((uint64_t)p << (16 * qd)) : splitmix(x); st.evaluations++; if ((uint32_t)shp_popcount3(w) != pc(w)) bad("of_popcount_3", w, (uint32_t)shp_popcount3(w)); }
   }
+  // structured words: all combinations of "interesting" half-words (all-ones, alternating, single bits, ...)
+  {
+    std::vector<uint32_t> hw = {0x0000, 0xFFFF, 0xAAAA, 0x5555, 0xFF00, 0x00FF, 0x8000, 0x0001, 0x7FFF, 0xFFFE, 0xF0F0, 0x0F0F, 0x8001, 0x1234};
+    for (uint32_t hi : hw) for (uint32_t lo : hw) {
+      uint32_t w = (hi << 16) | lo;
+      st.evaluations += 3;
+      if (shp_hweight32(w) != pc(w)) bad("of_hweight32", w, shp_hweight32(w));
+      if (shp_hweight32_naive(w) != pc(w)) bad("of_hweight32_naive", w, shp_hweight32_naive(w));
+      if (shp_hweight32_table(w) != pc(w)) bad("of_hweight32_table", w, shp_hweight32_table(w));
+      for (uint32_t hi2 : {0x00000000u, 0xFFFFFFFFu, 0xAAAAAAAAu, 0x80000000u}) { uint64_t w64 = ((uint64_t)hi2 << 32) | w; st.evaluations++; if ((uint32_t)shp_popcount3(w64) != pc(w64)) bad("of_popcount_3", w64, (uint32_t)shp_popcount3(w64)); }
+    }
+    for (int b = 0; b < 64 && !failed; b++) { uint64_t w64 = ~(1ull << b); st.evaluations++; if ((uint32_t)shp_popcount3(w64) != pc(w64)) bad("of_popcount_3", w64, (uint32_t)shp_popcount3(w64)); if (b < 32) { uint32_t w = ~(1u << b); if (shp_hweight32(w) != pc(w)) bad("of_hweight32", w, shp_hweight32(w)); if (shp_hweight32_table(w) != pc(w)) bad("of_hweight32_table", w, shp_hweight32_table(w)); if (shp_hweight32_naive(w) != pc(w)) bad("of_hweight32_naive", w, shp_hweight32_naive(w)); } }
+  }
   for (uint32_t b = 0; b < 256 && !failed; b++) { st.evaluations++; if (shp_hweight8_table((uint8_t)b) != pc(b)) bad("of_hweight8_table", b, shp_hweight8_table((uint8_t)b)); }
   for (int t = 0; t < 4000 && !failed; t++) {
     uint32_t bits = 1 + (uint32_t)(splitmix(x) % 300), words = (bits + 31) / 32;
@@ -508,7 +521,7 @@ int main(int argc, char** argv) {
   CurCase cur; if (!curp.empty()) cur.open(curp);
   st.rule = prop == "C17"
     ? "generated sequences (<= 60 operations, 120 thorough) over a pool of 4 sparse matrices (1..40 x 1..40, plus 1x2000 / 2000x1): allocate, insert (new / existing), find, delete, bulk insert (up to 1600 entries: crosses the 1024-entry block), bulk delete, clear, copy, copyrows, copycols, the _opt variants and copy_filled_matrix into fresh destinations, sparse->dense, dense->sparse, emptiness/weight queries, free; after every operation every live matrix is traversed by rows and by columns, links are checked and find is compared with the set model; non-trivial = delete->insert, clear->insert, > 1024 live entries, or copy into a non-empty destination; distinct = distinct operation sequence text"
-    : "generated sequences over a pool of 4 dense matrices (1..70 rows, column counts emphasising 31,32,33,63,64,65,96,97): set/get/flip, clear, fill, copy, copyrows, copycols (equal row counts), xor_rows, weights (row, column, emptiness, ignore_first at multiples of 32), free, compared cell by cell with a plain bit-matrix model after every operation; solver cases: p x q systems (q 1..70, p-q 0..10) of constructed rank (full: random row operations on [I;0]; deficient: dependent / zero column / duplicated row), random symbols of 1..40 bytes, rhs = A x; popcount helpers over all 16-bit patterns in every 16-bit position plus random words; non-trivial = column count not a multiple of 32, or solver needing a row swap, or rank-deficient system; distinct = distinct sequence text";
+    : "generated sequences over a pool of 4 dense matrices (1..70 rows, column counts emphasising 31,32,33,63,64,65,96,97): set/get/flip, clear, fill, copy, copyrows, copycols (equal row counts), xor_rows, weights (row, column, emptiness, ignore_first at multiples of 32), free, compared cell by cell with a plain bit-matrix model after every operation; solver cases: p x q systems (q 1..70, p-q 0..10) of constructed rank (full: random row operations on [I;0]; deficient: dependent / zero column / duplicated row), random symbols of 1..40 bytes, rhs = A x; popcount helpers over all 16-bit patterns in every 16-bit position, structured words (all-ones, alternating, one bit clear) and random words; non-trivial = column count not a multiple of 32, or solver needing a row swap, or rank-deficient system; distinct = distinct sequence text";
   Seq fseq;
   if (prop == "C18" && worker == 0) { popcounts(failed, fsig, fmsg, frp); st.classes["popcount"] += 1; }
   uint64_t shrink_execs = 0;
@@ -523,6 +536,8 @@ int main(int argc, char** argv) {
     });
   cur.clear();
   if (failed) {
+    if (!failout.empty() && !fseq.empty()) write_file(failout, "# property " + prop + "\n# signature " + fsig + "\n# " + fmsg + "\n" + seq_text(fseq));
+    if (!out.empty()) write_stats(out, prop, st, true, fsig, fmsg, failout);
     if (!fseq.empty()) { fseq = minimise(prop, fseq, fsig); Verdict v = run_one(prop, fseq, false); if (v.failed) fmsg = v.msg; frp = seq_text(fseq); }
     if (!failout.empty()) write_file(failout, "# property " + prop + "\n# signature " + fsig + "\n# " + fmsg + "\n" + frp);
   }
